@@ -481,6 +481,51 @@ pub mod fr {
                         b.partial_cmp(&c).map(f_ord).unwrap_or("none")
                     ))
                 }
+                // f.excess <base> <op> sa ea pa sb eb pb : digits(result) - precision(result) of one float
+                // operation (exploration / invariant check: the FBig invariant is digits <= precision)
+                "f.excess" | "f.fits" => {
+                    macro_rules! go {
+                        ($T:ty) => {{
+                            let a = mkf!($T, arg(args, 2)?, p_isize(arg(args, 3)?)?, p_usize(arg(args, 4)?)?);
+                            let b = mkf!($T, arg(args, 5)?, p_isize(arg(args, 6)?)?, p_usize(arg(args, 7)?)?);
+                            let r: $T = match arg(args, 1)? {
+                                "add" => &a + &b,
+                                "sub" => &a - &b,
+                                "mul" => &a * &b,
+                                "div" => &a / &b,
+                                "sqr" => a.sqr(),
+                                "cubic" => a.cubic(),
+                                "sqrt" => dashu_base::SquareRoot::sqrt(&a),
+                                "powi" => a.powi(b.to_int().value()),
+                                "exp" => a.exp(),
+                                "ln" => a.ln(),
+                                "addsub" => (&a + &b) - &b,
+                                "submul" => (&a - &b) * &b,
+                                "subsub" => (&a - &b) - &b,
+                                o => return Err(format!("bad-arg op {}", o)),
+                            };
+                            let rp = r.repr();
+                            let d = if rp.is_infinite() { 0 } else { rp.digits() };
+                            if op == "f.fits" {
+                                // the invariant the comparison relies on: at most one spare digit
+                                return Ok(format!("{}", r.precision() == 0 || d <= r.precision() + 1));
+                            }
+                            Ok(format!(
+                                "{} {} {} {}",
+                                f_ibig(rp.significand()),
+                                f_dec(rp.exponent()),
+                                f_dec(r.precision()),
+                                f_dec(d as isize - r.precision() as isize)
+                            ))
+                        }};
+                    }
+                    match arg(args, 0)? {
+                        "2" => go!(F2),
+                        "10" => go!(F10),
+                        "16" => go!(F16),
+                        b => Err(format!("bad-arg base {}", b)),
+                    }
+                }
                 // f.routes s e : the decimal float s*10^e built by several routes; every result must have the
                 // same normalised representation, be pairwise == and partial_cmp Equal (also across
                 // rounding modes and precisions) -> `<signif> <exp> routes-agree`
